@@ -163,6 +163,25 @@ def run(ctx):
             if not np.allclose(msk, ms, rtol=1e-10, atol=1e-13):
                 bad("multiphase pseudopressure depends on the row order of the relative-permeability table (it is not the integral of the documented mobility)",
                     dict(**inp, kr_rows=how), dict(scaled=[float(x) for x in msk[:4]], scaled_expected=[float(x) for x in ms[:4]]))
+        # initial pressures that are NOT table rows (between rows, and inside the first pressure interval, where the pseudopressure starts
+        # from zero): the scaled pseudopressure is 1 there too (fixed 2026-10, ecc8743: it used to be off by the interpolation error of a
+        # reciprocal - 1.09 at 25 psi on the shipped table - and NaN in the first interval)
+        for where_, p_off in (("between rows", float(rng.uniform(P[j - 1], P[j])) if j >= 1 else None), ("first interval", float(rng.uniform(P[0] + 1e-6 * (P[1] - P[0]), P[1])))):
+            if p_off is None or not (lam[:2].max() > 0 or where_ != "first interval"):
+                continue
+            try:
+                with warnings.catch_warnings():
+                    warnings.simplefilter("ignore")
+                    fpo = FlowPropertiesTwoPhase.from_table(tb2, krt, rho, 0.1, sw, p_off)
+                mo, ao = float(fpo.m_i), float(fpo.m_scaled_func(p_off))
+                mso = np.asarray(fpo.pvt_props["m-scaled"], float)
+            except Exception as e:  # noqa: BLE001
+                bad("FlowPropertiesTwoPhase.from_table fails for an initial pressure inside the table", dict(**inp, p_i=p_off, p_i_is=where_), repr(e)[:200])
+                continue
+            ev += 1
+            if not (dom.relclose(mo, 1.0, 1e-10) and dom.relclose(ao, 1.0, 1e-10) and np.all(np.isfinite(mso)) and np.all(np.diff(mso)[(lam[1:] + lam[:-1]) > 0] > 0)):
+                bad("scaled multiphase pseudopressure is not 1 at an initial pressure that is not a table row (or not finite / increasing)", dict(**inp, p_i=p_off, p_i_is=where_),
+                    dict(m_i=mo, at_p_i=ao, scaled_head=[float(x) for x in mso[:3]]))
         pf = float(rng.uniform(P[1], p_i * 0.999))
         mf = float(fp.m_scaled_func(pf))
         if np.any(np.diff(ms) <= 0) or not dom.relclose(float(fp.m_i), 1.0, 1e-10) or not dom.relclose(float(ms[j]), 1.0, 1e-10) or not (0 <= mf < 1):
